@@ -112,6 +112,12 @@ func EndBlocker(ctx sdk.Context, k keeper.Keeper) {
 			}
 
 			if len(providers) > 0 && len(providers) >= int(requestContext.ResponseThreshold) {
+				// charge the consumer what the requests record: each provider's price after discounts
+				totalPrices = sdk.NewCoins()
+				for _, provider := range providers {
+					binding, _ := k.GetServiceBinding(ctx, requestContext.ServiceName, provider)
+					totalPrices = totalPrices.Add(k.GetPrice(ctx, consumer, binding)...)
+				}
 				if err := k.DeductServiceFees(ctx, consumer, totalPrices); err != nil {
 					k.OnRequestContextPaused(
 						ctx,
